@@ -247,13 +247,17 @@ impl<A: Gen> Gen for core::ops::Range<A> { fn gen(r: &mut Rng) -> Self { A::gen(
 '''
 
 
-def render_body(exp, specs, layouts):
+def render_body(exp, specs, layouts, paths=None):
     """body.rs, included once per vek copy"""
     o = [PRELUDE, vexpr.RUST_SPEC_FNS, struct_gens(exp)]
     for k, (sp, layout) in enumerate(zip(specs, layouts)):
         uses = ['use super::vek::mat::repr_c::%s::*;' % layout, 'use super::vek::vec::repr_c::*;', 'use super::vek::quaternion::repr_c::*;',
                 'use super::vek::geom::repr_c::*;', 'use super::vek::bezier::repr_c::*;', 'use super::vek::transform::repr_c::*;',
                 'use super::vek::transition::*;', 'use super::vek::ops::*;', 'use core::ops::*;', 'use super::*;']
+        pm = re.search(r'mat::repr_c::(row_major|column_major)::mat(\d)', (paths or [''] * len(specs))[k])
+        if pm:
+            other = 'column_major' if pm.group(1) == 'row_major' else 'row_major'
+            uses.append('use super::vek::mat::repr_c::%s::Mat%s as Transpose;' % (other, pm.group(2)))   # the module's own private alias
         lines = ['pub mod f%d {' % k] + ['    ' + x for x in uses]
         lines.append('    pub fn run(n: u32) -> Vec<(String, String, String, String)> {')
         lines.append('        let mut out = Vec::new();')
@@ -284,6 +288,8 @@ def render_body(exp, specs, layouts):
         reqs, enss = [], []
         if sp.get('eval') and c is not None:
             for q in c.requires:
+                if re.search(r'obeys_\w+_spec\(\)', q):
+                    continue                      # specification plumbing of vstd's From/Into/operator traits: true at these instantiations
                 try:
                     reqs.append(vexpr.to_rust(q, vn))
                 except vexpr.Untranslatable:
@@ -452,7 +458,7 @@ def attempt(prop, violations, anchors, exp, repo, workdir, timeout=420):
     for _round in range(2 * len(specs) + 1):
         if not alive:
             break
-        open(os.path.join(rdir, 'src', 'body.rs'), 'w').write(render_body(exp, [specs[i] for i in alive], [layouts[i] for i in alive]))
+        open(os.path.join(rdir, 'src', 'body.rs'), 'w').write(render_body(exp, [specs[i] for i in alive], [layouts[i] for i in alive], [metas[i][1] for i in alive]))
         open(os.path.join(rdir, 'src', 'main.rs'), 'w').write(render_main(len(alive)))
         try:
             p = subprocess.run(['cargo', 'run', '--offline', '-q'], cwd=rdir, env=env, capture_output=True, text=True, timeout=timeout)
@@ -477,7 +483,8 @@ def attempt(prop, violations, anchors, exp, repo, workdir, timeout=420):
                 specs[i]['eval'] = False
                 specs[i]['eval_dropped'] = 'the translated clauses did not type-check in Rust: ' + ' / '.join(re.findall(r'(?m)^error[^\n]*', p.stderr)[:3])[:400]
             else:
-                notes.append(dict(tag=metas[i][0]['tag'], found=False, reason='replay harness for this function does not compile at f64'))
+                notes.append(dict(tag=metas[i][0]['tag'], found=False, reason='replay harness for this function does not compile at f64: '
+                                  + ' / '.join(re.findall(r'(?m)^error[^\n]*', p.stderr)[:3])[:400]))
                 del alive[k]
     if out is None:
         return notes
